@@ -14,7 +14,7 @@ import (
 
 // C04 — pipelines terminate: no stuck consumer, no leaked goroutine.
 
-var c04Modes = []string{"exhaust", "close", "cancel", "close-then-cancel", "cancel-then-close", "close-twice", "deadline"}
+var c04Modes = []string{"exhaust", "close", "cancel", "close-then-cancel", "cancel-then-close", "close-twice", "deadline", "abandon-one-close-others"}
 
 func c04Run(w *W) {
 	kind := simrt.Choose(pkNumKinds)
@@ -32,6 +32,16 @@ func c04Run(w *W) {
 		w.Fault("deadline")
 	}
 	p := buildPipe(cctx, kind, n, workers, buf)
+	if mode == 7 && !(kind == pkSplit && workers >= 2) {
+		mode = 1 // only Split has several outputs
+	}
+	abandoned := -1
+	if mode == 7 {
+		// one output is read for a while and then simply dropped (never
+		// closed); the stopper closes the others
+		abandoned = simrt.Choose(workers)
+		w.Fault("abandon")
+	}
 	if (p.run != nil || kind == pkBufferedChannel) && mode != 0 && mode != 6 {
 		mode = 2 // callback-style constructs and a bare channel can only be cancelled
 	}
@@ -82,7 +92,10 @@ func c04Run(w *W) {
 			stopState = 1
 			closeAll := func() {
 				seen := map[any]bool{}
-				for _, it := range p.outs {
+				for i, it := range p.outs {
+					if i == abandoned {
+						continue
+					}
 					if !seen[it] {
 						seen[it] = true
 						_ = it.Close()
@@ -111,6 +124,9 @@ func c04Run(w *W) {
 				closeAll()
 				w.Fault("close")
 				w.Fault("double-close")
+			case 7:
+				closeAll()
+				w.Fault("close")
 			}
 			stopState = 2
 		})
@@ -146,7 +162,22 @@ func c04Run(w *W) {
 			w.Violate("no-eof", sig("no-eof"), "%s: finite input did not end in io.EOF for every consumer: %v", p.name, errs)
 		}
 	}
-	if live := simrt.LiveLibTasks(); len(live) > 0 {
+	if live := simrt.LiveLibTasks(); len(live) > 0 && mode == 7 {
+		// Split starts its reader goroutine under the context of whichever
+		// output is advanced first; which case this is decides the signature
+		first := false
+		for _, id := range simrt.LiveLibTaskIDs() {
+			if recs[abandoned].task != "" && strings.HasPrefix(id, recs[abandoned].task+".") {
+				first = true
+			}
+		}
+		sort.Strings(live)
+		detail := "abandoned-output-was-not-first-advanced"
+		if first {
+			detail = "abandoned-output-was-first-advanced"
+		}
+		w.Violate("goroutine-leak", sig("goroutine-leak")+":"+detail+":"+live[0], "%s: %d library goroutine(s) still alive after one output was abandoned (read %d items, never closed) and the others were closed (%s): %s", p.name, len(live), len(recs[abandoned].vals), detail, strings.Join(live, ", "))
+	} else if len(live) > 0 {
 		sort.Strings(live)
 		w.Violate("goroutine-leak", sig("goroutine-leak")+":"+live[0], "%s: %d library goroutine(s) still alive after the consumer is done (mode %s): %s", p.name, len(live), c04Modes[mode], strings.Join(live, ", "))
 	}
